@@ -7,12 +7,13 @@ from vlib import core
 
 META = {
     "level": "fault_enumeration",
-    "level_text": "BoundedReader.tla models the three reader archetypes behind every parser of the property (chunk walker, counted "
-                  "array with nesting, terminated / length-prefixed strings) over an adversarial file; TLC shows exhaustively (len 0..24, "
+    "level_text": "BoundedReader.tla models the four reader archetypes behind every parser of the property (chunk walker, counted "
+                  "array with nesting, terminated / length-prefixed strings, codec token stream with state markers / runs / back "
+                  "references) over an adversarial file; TLC shows exhaustively (len 0..24, "
                   "boundary values per field) that the checked design is total (no read past the end, bounded allocation and work, loop "
-                  "progress, outcome ok|err, no stuck state, termination) and that each of nine named unchecked deviations violates an "
+                  "progress, table index / output / back-reference bounds, outcome ok|err, no stuck state, termination) and that each of twelve named unchecked deviations violates an "
                   "invariant. TLC then emits the fault plan (archetype x field role x boundary symbol, prefix classes, single chunk-sequence "
-                  "edits, havoc budget in thorough); the harness applies every item to every matching field of the per-format field inventory "
+                  "edits, field pairs, marker-repetition counts on codec token streams, havoc budget in thorough); the harness applies every item to every matching field of the per-format field inventory "
                   "of valid seed files built with the library's own writers, runs each mutated input through every public entry point of "
                   "observe_at in a crash-isolated child (catch_unwind, counting allocator, 8 MB stack, watchdog), and TLC validates the recorded "
                   "outcomes against the specification (outcome in {ok, err}, single request <= 64*input + 64 MiB, peak <= 64*input + 256 MiB).",
@@ -30,7 +31,7 @@ DEVIATIONS = ["ChunkWrapAdd", "ChunkNoCheck", "ChunkNoProgress", "ArrayPrealloc"
 FAULTS = {  # deviation -> what TLC must report for it
     "wrapadd": "ReadInBounds", "nosizecheck": "ReadInBounds", "noprogress": "ChunkProgress", "prealloc": "AllocBounded",
     "mulwrap": "AllocBounded", "zeroesize": "WorkBounded", "nooffcheck": "ReadInBounds", "scanpast": "ReadInBounds",
-    "stuck": "Deadlock",
+    "stuck": "Deadlock", "marksat": "TableIndexInBounds", "runover": "OutputBounded", "backunder": "BackrefInBounds",
 }
 
 
